@@ -131,6 +131,12 @@ def gen_cases(rng, tier):
     reals = RealSource(exe)
     n = 400 if tier == 'quick' else 12000
     cases = []
+    # byte-pair sweep of the shared name / string lexers: row a = 256 operations "Tj" with operands /ab and (ab)
+    # (quick: 6 rows; thorough: all 256 rows = every byte pair as name and as literal string content)
+    rows = range(256) if tier != 'quick' else sorted(rng.sample(range(256), 4) + [0x23, 0x5c])
+    for a in rows:
+        ops = [L('op', xb('Tj'), L('n', xb(bytes([a, b]))), L('s', xb(bytes([a, b])))) for b in range(256)]
+        cases.append((L('enc', L('ops', *ops), 'wf'), {'kind': 'enc-pair-sweep', 'nontrivial': True}))
     for k in range(n):
         r = rng.random()
         if r < 0.04:
@@ -261,7 +267,8 @@ SPEC = {
                     'operation under three assumed facts about the parsed dictionary values (C14_inline_image_reencode_partial: '
                     'well-formed, normal form, nesting within the limit); the literal clause is evaluated on the implementation '
                     'for every dec case',
-    'rule': 'random operation sequences (operators over the parser alphabet, 0-6 operands of every direct kind nested to depth 3, '
+    'rule': 'byte-pair sweep rows (every second byte after a fixed first byte as name and as literal-string operand; all 65 536 pairs in '
+            'the thorough tier); random operation sequences (operators over the parser alphabet, 0-6 operands of every direct kind nested to depth 3, '
             'adversarial bytes in names/strings, f32 reals printed by Rust itself) encoded then decoded; raw content streams '
             '(token soup with comments, all EOL flavours, valid and invalid inline images, byte damage) decoded, re-encoded, '
             'decoded again; non-trivial = at least one operation; distinct = distinct case text',
